@@ -145,6 +145,14 @@ func (rl *Shell) init() {
 	// Some accept-* commands must fetch a specific
 	// line outright, or keep the accepted one.
 	history.Init(rl.History)
+
+	// A line held or inferred from the previous run has its cursor at
+	// the end, which is not a valid position in Vim command mode.
+	switch rl.Keymap.Main() {
+	case keymap.ViCommand, keymap.ViMove, keymap.Vi:
+		rl.cursor.CheckCommand()
+	}
+
 	rl.History.Save()
 
 	// Reset/initialize user interface components.
